@@ -77,6 +77,8 @@ type Engine struct {
 	mergeDefs  map[string][]string
 	leafT      map[string]types.Type
 	refComp    map[string]bool
+	attached   map[*Clause]bool
+	detached   []string
 }
 
 type sortFact struct {
